@@ -29,11 +29,11 @@ import (
 // one report through preparation, with optional per-aggregator alterations
 
 type report struct {
-	m      any
-	nonce  Nonce
-	rand   []byte
-	pub    []byte
-	ins    [][]byte
+	m     any
+	nonce Nonce
+	rand  []byte
+	pub   []byte
+	ins   [][]byte
 	// honest intermediate values (filled by process when the run is honest)
 	prepShares [][]byte
 	prepMsg    []byte
@@ -216,6 +216,9 @@ func alteration(t *rapid.T, c *icase, r, other *report, kind string) (v *view, l
 			}
 			idx = idxBiased(t, l.measLen, c.chunk, "me")
 		} else {
+			if l.proofLen == 0 {
+				return v, "n/a", false
+			}
 			idx = l.measLen + idxBiased(t, l.proofLen, 0, "pe")
 		}
 		putElt(b, idx, l.fs, newEltValue(t, getElt(b, idx, l.fs), l.p, "elt"))
@@ -331,6 +334,10 @@ func alteration(t *rapid.T, c *icase, r, other *report, kind string) (v *view, l
 	case "nonce-one":
 		i := rapid.IntRange(0, n-1).Draw(t, "agg")
 		flipBit(t, v.nonces[i][:], 0, len(r.nonce), "bit")
+		// With zero bits to check (Sum bound 0, SumVec bits 0) the circuit has no
+		// gadget call: proof and verifier are constants, nothing depends on the
+		// query randomness, so the nonce cannot matter.
+		asserted = l.measLen > 0
 	case "nonce-all":
 		var nn Nonce = r.nonce
 		flipBit(t, nn[:], 0, len(nn), "bit")
@@ -339,7 +346,7 @@ func alteration(t *rapid.T, c *icase, r, other *report, kind string) (v *view, l
 		}
 		// Without joint randomness a nonce changed consistently everywhere
 		// merely selects other query randomness for a still valid proof.
-		asserted = l.jr
+		asserted = l.jr && l.measLen > 0
 	case "prepshare-verifier-elt", "prepshare-bitflip", "prepshare-jrpart", "prepshare-foreign":
 		// PrepInit is deterministic, so the honest prep shares of r are known
 		i := rapid.IntRange(0, n-1).Draw(t, "agg")
@@ -378,6 +385,9 @@ func alteration(t *rapid.T, c *icase, r, other *report, kind string) (v *view, l
 			return v, "n/a", false
 		}
 		edits, lbl := c.genEdit(t, r.m)
+		if lbl == "n/a" {
+			return v, "n/a", false
+		}
 		honest := c.encode(r.m)
 		b := cp(r.ins[0])
 		for _, e := range edits {
@@ -1103,11 +1113,20 @@ func TestC19ManyAggregators(t *testing.T) {
 	defer vlib.Done()
 	ctx := []byte("many aggregators")
 	mk := map[string]func(shares uint8) (*icase, *buildErr, any){
-		"count":     func(s uint8) (*icase, *buildErr, any) { c, be := newCountCase(s, ctx); return c, be, true },
-		"sum":       func(s uint8) (*icase, *buildErr, any) { c, be := newSumCase(s, 1, ctx); return c, be, uint64(1) },
-		"sumvec":    func(s uint8) (*icase, *buildErr, any) { c, be := newSumVecCase(s, 1, 1, 1, ctx); return c, be, []uint64{1} },
-		"histogram": func(s uint8) (*icase, *buildErr, any) { c, be := newHistogramCase(s, 1, 1, ctx); return c, be, uint64(0) },
-		"mhcv":      func(s uint8) (*icase, *buildErr, any) { c, be := newMhcvCase(s, 1, 1, 1, ctx); return c, be, []bool{true} },
+		"count": func(s uint8) (*icase, *buildErr, any) { c, be := newCountCase(s, ctx); return c, be, true },
+		"sum":   func(s uint8) (*icase, *buildErr, any) { c, be := newSumCase(s, 1, ctx); return c, be, uint64(1) },
+		"sumvec": func(s uint8) (*icase, *buildErr, any) {
+			c, be := newSumVecCase(s, 1, 1, 1, ctx)
+			return c, be, []uint64{1}
+		},
+		"histogram": func(s uint8) (*icase, *buildErr, any) {
+			c, be := newHistogramCase(s, 1, 1, ctx)
+			return c, be, uint64(0)
+		},
+		"mhcv": func(s uint8) (*icase, *buildErr, any) {
+			c, be := newMhcvCase(s, 1, 1, 1, ctx)
+			return c, be, []bool{true}
+		},
 	}
 	for _, name := range instNames {
 		for k, shares := range []uint8{127, 128, 129, 200, 255} {
@@ -1129,58 +1148,188 @@ func TestC19ManyAggregators(t *testing.T) {
 				vlib.ReportDirect(t, "C19/rand-size/"+name, fmt.Sprintf("%s: Params().RandSize() = %d, specified RAND_SIZE = %d", c.desc, l.randSize, wantRand), replay)
 				continue
 			}
-			r := &report{m: m, rand: make([]byte, wantRand)}
-			vlib.ExpandInto(r.rand, uint64(vlib.Seed)*1000+uint64(k))
-			vlib.ExpandInto(r.nonce[:], uint64(vlib.Seed)*1000+100+uint64(k))
-			var vk VerifyKey
-			vlib.ExpandInto(vk[:], uint64(vlib.Seed)*1000+200+uint64(k))
-			var err error
-			var o outcome
-			var got any
-			stage := "Shard"
-			p, st := vlib.Catch(func() {
-				r.pub, r.ins, err = I.Shard(m, &r.nonce, r.rand)
-				if err != nil {
-					return
-				}
-				stage = "prepare"
-				o = process(I, &vk, honestView(I, r))
-				if !o.accepted {
-					err = o.err
-					return
-				}
-				stage = "aggregate"
-				aggs := make([][]byte, l.shares)
-				for i := range aggs {
-					var a []byte
-					if a, err = I.AggInit(); err != nil {
-						return
-					}
-					if aggs[i], err = I.AggUpdate(a, o.outs[i]); err != nil {
-						return
-					}
-				}
-				stage = "Unshard"
-				got, err = I.Unshard(aggs, 1)
-			})
-			switch {
-			case p != nil:
-				vlib.ReportDirect(t, "C19/panic/"+name+"/"+stage+"/"+vlib.PanicClass(p), fmt.Sprintf("%s: %v\n%s", c.desc, p, st), replay)
-			case err != nil:
-				if _, hv := classify(err); hv != nil {
-					vlib.ReportDirect(t, hv.key, c.desc+": "+hv.detail, replay)
-				} else {
-					vlib.ReportDirect(t, "C19/honest-rejected/"+name+"/"+stage, fmt.Sprintf("%s measurement %v with %d bytes of randomness: %v", c.desc, m, len(r.rand), err), replay)
-				}
-			default:
-				if s := sumShares(l, o.outs); !vecEq(s, c.output(m)) {
-					vlib.ReportDirect(t, "C19/out-shares/"+name, fmt.Sprintf("%s: output shares add up to %s", c.desc, fmtVec(s)), replay)
-				} else if eq, _ := aggEqual(c, got, c.output(m)); !eq {
-					vlib.ReportDirect(t, "C19/aggregate/"+name+"/mismatch", fmt.Sprintf("%s measurement %v: Unshard = %v", c.desc, m, got), replay)
-				} else {
-					vlib.NonTrivial(sub, fmt.Sprintf("shares=%d", shares), []byte(c.desc), r.rand, r.nonce[:], vk[:])
-				}
+			runOne(t, sub, c, m, k, fmt.Sprintf("shares=%d", shares), replay)
+		}
+	}
+}
+
+// runOne: one honest report with seed-derived nonce, randomness and verify
+// key through shard → prepare → aggregate → unshard (byte level).
+func runOne(t *testing.T, sub string, c *icase, m any, k int, class string, replay map[string]interface{}) {
+	name := c.name
+	I := c.I
+	l := I.L()
+	wantRand := l.randSize
+	r := &report{m: m, rand: make([]byte, wantRand)}
+	vlib.ExpandInto(r.rand, uint64(vlib.Seed)*1000+uint64(k))
+	vlib.ExpandInto(r.nonce[:], uint64(vlib.Seed)*1000+100+uint64(k))
+	var vk VerifyKey
+	vlib.ExpandInto(vk[:], uint64(vlib.Seed)*1000+200+uint64(k))
+	var err error
+	var o outcome
+	var got any
+	stage := "Shard"
+	p, st := vlib.Catch(func() {
+		r.pub, r.ins, err = I.Shard(m, &r.nonce, r.rand)
+		if err != nil {
+			return
+		}
+		stage = "prepare"
+		o = process(I, &vk, honestView(I, r))
+		if !o.accepted {
+			err = o.err
+			return
+		}
+		stage = "aggregate"
+		aggs := make([][]byte, l.shares)
+		for i := range aggs {
+			var a []byte
+			if a, err = I.AggInit(); err != nil {
+				return
+			}
+			if aggs[i], err = I.AggUpdate(a, o.outs[i]); err != nil {
+				return
 			}
 		}
+		stage = "Unshard"
+		got, err = I.Unshard(aggs, 1)
+	})
+	switch {
+	case p != nil:
+		vlib.ReportDirect(t, "C19/panic/"+name+"/"+stage+"/"+vlib.PanicClass(p), fmt.Sprintf("%s: %v\n%s", c.desc, p, st), replay)
+	case err != nil:
+		if _, hv := classify(err); hv != nil {
+			vlib.ReportDirect(t, hv.key, c.desc+": "+hv.detail, replay)
+		} else {
+			vlib.ReportDirect(t, "C19/honest-rejected/"+name+"/"+stage, fmt.Sprintf("%s measurement %v with %d bytes of randomness: %v", c.desc, m, len(r.rand), err), replay)
+		}
+	default:
+		if s := sumShares(l, o.outs); !vecEq(s, c.output(m)) {
+			vlib.ReportDirect(t, "C19/out-shares/"+name, fmt.Sprintf("%s: output shares add up to %s", c.desc, fmtVec(s)), replay)
+		} else if eq, _ := aggEqual(c, got, c.output(m)); !eq {
+			vlib.ReportDirect(t, "C19/aggregate/"+name+"/mismatch", fmt.Sprintf("%s measurement %v: Unshard = %v", c.desc, m, got), replay)
+		} else {
+			vlib.NonTrivial(sub, class, []byte(c.desc), r.rand, r.nonce[:], vk[:])
+		}
+	}
+}
+
+// TestC19Sizes: deterministic parameter points (2 aggregators, one honest
+// report each): the smallest value of every parameter including the zero-bit
+// instances, and a sweep over the number of gadget calls across every power
+// of two up to 2^11 (the proof system's NTT sizes go up to 2^13), for the
+// 64-bit field through every bit width of Sum.
+func TestC19Sizes(t *testing.T) {
+	defer vlib.Done()
+	ctx := []byte("sizes")
+	type point struct {
+		class string
+		mk    func() (*icase, *buildErr, any)
+	}
+	var pts []point
+	add := func(class string, mk func() (*icase, *buildErr, any)) { pts = append(pts, point{class, mk}) }
+	add("smallest", func() (*icase, *buildErr, any) { c, be := newCountCase(2, ctx); return c, be, true })
+	// zero-bit and smallest parameters
+	add("zero-bits", func() (*icase, *buildErr, any) { c, be := newSumCase(2, 0, ctx); return c, be, uint64(0) })
+	for _, p := range [][3]uint{{1, 0, 1}, {3, 0, 5}, {1, 1, 1}, {1, 1, 9}, {2, 64, 1}} {
+		p := p
+		cl := "smallest"
+		if p[1] == 0 {
+			cl = "zero-bits"
+		}
+		add(cl, func() (*icase, *buildErr, any) {
+			c, be := newSumVecCase(2, p[0], p[1], p[2], ctx)
+			m := make([]uint64, p[0])
+			if p[1] > 0 {
+				m[p[0]-1] = 1
+			}
+			return c, be, m
+		})
+	}
+	for _, p := range [][3]uint{{1, 0, 1}, {5, 0, 2}, {1, 1, 1}, {1, 1, 4}} {
+		p := p
+		cl := "smallest"
+		if p[1] == 0 {
+			cl = "zero-bits"
+		}
+		add(cl, func() (*icase, *buildErr, any) {
+			c, be := newMhcvCase(2, p[0], p[1], p[2], ctx)
+			m := make([]bool, p[0])
+			m[0] = p[1] > 0
+			return c, be, m
+		})
+	}
+	for _, p := range [][2]uint{{1, 1}, {1, 5}, {2, 2}} {
+		p := p
+		add("smallest", func() (*icase, *buildErr, any) {
+			c, be := newHistogramCase(2, p[0], p[1], ctx)
+			return c, be, uint64(p[0] - 1)
+		})
+	}
+	// Sum: every bit width (2*bits gadget calls, NTT sizes 4..256 in the 64-bit field)
+	for b := uint(1); b <= 63; b++ {
+		for _, max := range []uint64{uint64(1) << (b - 1), uint64(1)<<b - 1} {
+			max := max
+			add("sum-bit-widths", func() (*icase, *buildErr, any) { c, be := newSumCase(2, max, ctx); return c, be, max })
+		}
+	}
+	// gadget-call sweep in the 128-bit field: 2^j-1 and 2^j calls, j = 1..11
+	for j := uint(1); j <= 11; j++ {
+		for _, calls := range []uint{1<<j - 1, 1 << j} {
+			calls := calls
+			add("gadget-calls", func() (*icase, *buildErr, any) {
+				c, be := newHistogramCase(2, calls, 1, ctx)
+				return c, be, uint64(calls - 1)
+			})
+			add("gadget-calls", func() (*icase, *buildErr, any) {
+				c, be := newSumVecCase(2, calls, 1, 1, ctx)
+				m := make([]uint64, calls)
+				m[calls-1] = 1
+				return c, be, m
+			})
+			if calls >= 2 {
+				add("gadget-calls", func() (*icase, *buildErr, any) {
+					c, be := newMhcvCase(2, calls-1, 1, 1, ctx)
+					m := make([]bool, calls-1)
+					m[calls-2] = true
+					return c, be, m
+				})
+			}
+		}
+	}
+	// wider chunks with many calls
+	add("gadget-calls", func() (*icase, *buildErr, any) {
+		c, be := newSumVecCase(2, 1000, 16, 31, ctx)
+		m := make([]uint64, 1000)
+		m[0], m[999] = 65535, 1
+		return c, be, m
+	})
+	add("gadget-calls", func() (*icase, *buildErr, any) {
+		c, be := newHistogramCase(2, 3000, 3, ctx)
+		return c, be, uint64(2999)
+	})
+	add("gadget-calls", func() (*icase, *buildErr, any) {
+		c, be := newMhcvCase(2, 1500, 700, 2, ctx)
+		m := make([]bool, 1500)
+		for i := 0; i < 700; i++ {
+			m[2*i] = true
+		}
+		return c, be, m
+	})
+	for k, p := range pts {
+		if k%vlib.NShards != vlib.Shard {
+			continue
+		}
+		c, be, m := p.mk()
+		replay := map[string]interface{}{"point": k, "class": p.class, "seed": vlib.Seed}
+		if be != nil {
+			vlib.Eval("sizes")
+			vlib.ReportDirect(t, "C19/constructor/sizes/valid-params-refused", fmt.Sprintf("point %d (%s): err=%v panic=%v", k, p.class, be.err, be.panicked), replay)
+			continue
+		}
+		sub := "sizes/" + c.name
+		vlib.Eval(sub)
+		replay["instance"] = c.desc
+		runOne(t, sub, c, m, k, p.class, replay)
 	}
 }
